@@ -181,6 +181,30 @@ def check(ctx, run):
                 if isinstance(n, ast.Attribute) and isinstance(n.value, ast.Name) and n.value.id == "self" and isinstance(n.ctx, ast.Load):
                     used.add(n.attr)
         unused = [s for s in stored if s not in used]
+        if unused:
+            # no `self.<name>` is read in the class's own methods: the options may reach the computation through a base class or by name
+            # (getattr over a table of option names). Decided on the interpreted forward: an option is used iff its value occurs in what
+            # forward returns or in the arguments of a call it makes
+            fw_ = prog.lookup_method(cq, "forward")
+            if fw_ is None:
+                raise AnalysisError(f"anchor vanished: {cq}.forward")
+            probe = Obj(cq, "m", {a_: Sym(f"m.{a_}", ("str",) if a_ == "inverted_output" else ("float",)) for a_ in stored})
+            targs = [W.tensor(a_.arg) for a_ in fw_.node.args.args[1:]]
+            try:
+                res_ = [r_ for r_ in interp.explore(fw_, targs, {}, self_obj=probe, max_paths=60)]
+            except Unsupported as ex:
+                raise AnalysisError(f"{cq}.forward: {ex}")
+            seen = set()
+            for r_ in res_:
+                terms_ = [r_["value"]] + [c_ for c_, _, _ in r_["cond"]]
+                for e_ in r_["events"]:
+                    terms_ += list(e_.get("args", []) or []) + list((e_.get("kwargs") or {}).values())
+                    if e_["kind"] == "guard":
+                        terms_.append(e_.get("cond"))
+                for t_ in terms_:
+                    if isinstance(t_, (Op, Sym, list, tuple)):
+                        seen |= {x_.name for x_ in walk(t_) if isinstance(x_, Sym)}
+            unused = [a_ for a_ in unused if f"m.{a_}" not in seen]
         doc = ast.get_docstring(ci.node) or ""
         sec = doc.split("Args:")[1] if "Args:" in doc else ""
         sec = re.split(r"\n\s*\n(?=\S)|\n(?=[A-Z][a-z]+:)", sec)[0]
